@@ -113,7 +113,12 @@ complete-sinks flag is set from the node's `Type()`. -/
 theorem getError_on_source :
     Evl.Generated.getErrorCases =
       [{ l := .lenComplete, op := .lt, r := .threshold }, { l := .lenCompleteSinks, op := .lt, r := .thresholdSinks }] ∧
-    Evl.Generated.dispatchFacts.sinkFlagFromType = true := by decide
+    Evl.Generated.dispatchFacts.sinkFlagFromType = true ∧
+    -- a node's error / a dropped event is always offered to the collector (the model's `sendTry`):
+    -- the only way not to report is Send's own context being done
+    Evl.Generated.dispatchFacts.errorAlwaysReported = true ∧
+    Evl.Generated.dispatchFacts.dropAlwaysReported = true ∧
+    Evl.Generated.dispatchFacts.sendsGuardedByCtx = true := by decide
 
 /-! ### thresholds (M1): per event type, reject negatives, read back as last set -/
 open Evl.Registry
